@@ -131,6 +131,30 @@ def repo_corpus():
             out.add(enc([ord(c) for c in lit if ord(c) < 256]))
     return sorted(out)[:3000] + ip4_suite()
 
+
+# ------------------------------------------------------------------ long components (counters of a narrow type, thresholds at 2^8, 2^15, 2^16)
+def long_templates(n):
+    """valid references with one component of n characters / n segments (no IPv6 literal: the text is its own recomposition)"""
+    a = "a" * n
+    return [a + ":", "s://" + a, "s://" + "u" * n + "@h", "s://h:" + "1" * n, "s://h/" + a, "s://h/" + "a/" * n, "?" + "q" * n, "#" + "f" * n,
+            "s://h/" + "%41" * n, "//[v" + "1" * n + ".x]", "//[v1." + a + "]", "../" * n + "x", a, "s:" + "a/" * n + "b?" + "k=v&" * n,
+            "//" + "1" * n + ".2.3.4", "s://h/" + "./" * n + "x", "s://h/" + "a/../" * n]
+
+def long_cases(sizes):
+    """-> list of (text, expected rc, expected error position or None)"""
+    out = []
+    for n in sizes:
+        for t in long_templates(n):
+            out.append((t, 0, None))
+            out.append((t + " ", 1, len(t)))                       # a character no rule accepts, right behind
+            if not t.startswith("//["):
+                k = len(t) // 2
+                out.append((t[:k] + "^" + t[k:], 1, k))            # ... and in the middle of the long component
+    return out
+
+def long_texts(sizes=(255, 256, 257, 1025)):
+    return [enc([ord(c) for c in t]) for t, _, _ in long_cases(sizes)]
+
 def widen(rng, f):
     """a wide-only variant: one character replaced by a code point >= 128 (sometimes > 255)"""
     cps = dec(f) or []
